@@ -137,14 +137,41 @@ class _FS(object):
                     continue
                 yield _Info(name, False)
 
+    # the part of the fs.base.FS interface a registry may reasonably use, with the library's semantics
     def isfile(self, name):
         return any(n == name and not d for n, d, r in World.directory)
 
-    def open(self, name, *a, **kw):
+    def isdir(self, name):
+        return any(n == name and d for n, d, r in World.directory)
+
+    def exists(self, name):
+        return any(n == name for n, d, r in World.directory)
+
+    def listdir(self, path):
+        return [n for n, d, r in World.directory]
+
+    def scandir(self, path, **kw):
+        return iter(_Info(n, d) for n, d, r in World.directory)
+
+    def getinfo(self, name, **kw):
+        import fs.errors
+
         for n, d, r in World.directory:
-            if n == name and not d:
+            if n == name:
+                return _Info(n, d)
+        raise fs.errors.ResourceNotFound(name)
+
+    def open(self, name, *a, **kw):
+        import fs.errors
+
+        for n, d, r in World.directory:
+            if n == name:
+                if d:
+                    raise fs.errors.FileExpected(name)
                 return contextlib.nullcontext(_Entry(n, r))
-        raise IOError(name)
+        raise fs.errors.ResourceNotFound(name)
+
+    openbin = open
 
 
 class FakeFs(object):
